@@ -7,6 +7,16 @@ HERE = Path(__file__).resolve().parent.parent
 
 # id: (level, technique, level text, level note)
 CHECKS = {
+ 'C09': ('fault_enumeration',
+         'enumerated fault positions/kinds incl. kernel-enforced write failure (RLIMIT_FSIZE in a forked child); post-failure oracle = raised + fresh open + independent decode + contents',
+         'Every failure position 0..n for every failure kind (iterable raises, wrong trailing shape, wrong rank, unconvertible '
+         'element, complex into real, integer too large, 0-d chunk) from empty and non-empty 1-D..3-D starts through append '
+         'and iterappend; real write failures provoked by lowering RLIMIT_FSIZE in a forked child to every offset around '
+         'every chunk boundary (-1/0/+1 byte, mid element, mid row, one item in, mid chunk) for stdio-buffered, medium and '
+         'large chunks. After the failure: the call must have raised, darr.Array(path) must open, the independent decoder '
+         'must accept the files, contents must equal original + completely appended chunks, live handle = fresh handle.',
+         'RLIMIT_FSIZE limits all files of the process; data files are kept larger than README/JSON, and for empty starts '
+         'only offsets above the README size are used (stated in DESIGN).'),
  'C12': ('exploration',
          'NumPy reference model + ownership inspection + /proc fd/map census after every access + forked durability children',
          'Generated sequences of reads and assignments with index expressions composed from an enumerated pool (basic, '
